@@ -366,7 +366,13 @@ class Result:
             print("OK property=%s tier=%s evaluations=%s wall=%.1fs" % (
                 self.id, self.tier, cov.get("evaluations"), time.time() - self.t0))
             return 0
-        for n, (what, replay, no_input) in enumerate(self.violations[:5]):
+        # up to five violations that carry a concrete failing input, then up to three broken proof / tie obligations
+        # for which no failing input was found (so that the obligation that no longer checks is always named, also
+        # when the sampled run fills the first five places)
+        concrete = [v for v in self.violations if not v[2]][:5]
+        broken = [v for v in self.violations if v[2]][:3]
+        shown = (concrete + broken) if concrete else self.violations[:5]
+        for n, (what, replay, no_input) in enumerate(shown):
             rp = os.path.join("replays", "%s-%d-%d.json" % (self.id, self.seed, n))
             with open(os.path.join(ROOT, rp), "w") as f:
                 json.dump({"property": self.id, "what": what, "replay": replay,
@@ -375,7 +381,10 @@ class Result:
             if no_input:
                 line += " no-failing-input-found"
             print(line)
-        print("# %s" % self.violations[0][0], file=sys.stderr)
+        print("# %s" % shown[0][0], file=sys.stderr)
+        for what, _, no_input in shown[1:]:
+            if no_input:
+                print("# also: %s" % what, file=sys.stderr)
         return 1
 
 
